@@ -280,6 +280,19 @@ func check(id, tier, repo, verif, onlyKey string) int {
 		ctx, err := loadAll(repo, arch)
 		if err != nil {
 			fmt.Printf("bbcheck: cannot analyse %s (GOARCH=%q): %v\n", repo, arch, err)
+			if strings.HasPrefix(err.Error(), "anchor:") {
+				// the package compiles but a field the frozen tables name is gone: the representation changed and the
+				// rules anchored on it cannot decide - reported as a violation of the analysis' precondition, not skipped
+				os.MkdirAll(filepath.Join(verif, "evidence", "violations"), 0o755)
+				rp := filepath.Join(verif, "evidence", "violations", fmt.Sprintf("%s-00.json", id))
+				b, _ := json.MarshalIndent(map[string]any{"property": id, "key": "ANCHOR/tables/" + err.Error(), "status": "undecided", "rule": "ANCHOR",
+					"detail": "a field named by the frozen tables no longer exists (" + err.Error() + "): the tables must be re-confirmed against the source before any rule can decide",
+					"replay": "cd /verif && ./check.sh --replay " + rp}, "", " ")
+				os.WriteFile(rp, b, 0o644)
+				fmt.Printf("  UNDECIDED ANCHOR/tables: %v\n", err)
+				fmt.Printf("VIOLATION property=%s replay=%s\n", id, rp)
+				return 1
+			}
 			return 2
 		}
 		obs := pr.Build(ctx)
